@@ -153,7 +153,7 @@ def run(d, harnesses, timeout_s=900, jobs=16, extra=None, package_dir='statime',
     def _limits():
         import resource
         os.setsid()
-        lim = int(os.environ.get('VERIF_MEM_GB', '24')) << 30
+        lim = int(os.environ.get('VERIF_MEM_GB', '48')) << 30
         resource.setrlimit(resource.RLIMIT_AS, (lim, lim))
     p = subprocess.Popen(cmd, cwd=os.path.join(d, package_dir), env=env, stdout=subprocess.PIPE,
                          stderr=subprocess.STDOUT, text=True, preexec_fn=_limits)
